@@ -100,6 +100,10 @@ type ScanRefsOptions struct {
 
 	// SkippedRefs provides a list of refs to ignore.
 	SkippedRefs []string
+	// IgnoreRemoteRefs says that none of the locally cached refs of the
+	// remote exists on the remote any more, so that they must not be
+	// excluded from a ScanRangeToRemoteMode scan.
+	IgnoreRemoteRefs bool
 	// Mutex guards names.
 	Mutex *sync.Mutex
 	// Names maps Git object IDs (encoded as hex using
@@ -251,7 +255,7 @@ func revListArgs(include, exclude []string, opt *ScanRefsOptions) (io.Reader, []
 		args = append(args, "--all")
 	case ScanRangeToRemoteMode:
 		args = append(args, "--ignore-missing")
-		if len(opt.SkippedRefs) == 0 {
+		if len(opt.SkippedRefs) == 0 && !opt.IgnoreRemoteRefs {
 			args = append(args, "--not", "--remotes="+opt.Remote)
 			stdin = strings.NewReader(strings.Join(
 				includeExcludeShas(include, exclude), "\n"))
